@@ -53,7 +53,8 @@ CHECKS['C02'] = dict(
          "or-self of the citing step, and lemmas show such a step lies strictly earlier in the checker's depth-first "
          "order, never inside a closed block, never the step itself; Thm.can_prove = same conclusion, hypotheses "
          "subset. The checker-level statement (check_proof, _check_proof_item, checked_extend) is covered by a "
-         "bounded stand-in only: exhaustive small proof objects and seeded mutations run through the real checker "
+         "bounded stand-in only: exhaustive small proof objects (incl. all 1- and 2-line objects of circular citations "
+         "with blocks and negative / mismatched identifiers) and seeded mutations run through the real checker "
          "with a truth-table oracle - labelled bounded, not counted as proved.",
     note="Trusted: pyvc, z3. _check_proof_item itself is not under contract (needs a heap model of mutable "
          "Proof/ProofItem objects); its behaviour is explored, not proved.",
@@ -137,14 +138,16 @@ _bounded('C10',
          "Bounded stand-in (not a proof): conversions (nat/real/propositional normalisers, traversal combinators "
          "with rewrite rules) on generated terms: equation about the given term, no hypotheses, exported proof "
          "accepted by the checker, eval agrees; canonicity under rearrangement (incl. powers against written-out "
-         "products) and idempotence, for nat.norm_full, real_norm_conv, auto.auto_conv and proplogic.norm_full.",
+         "products) and idempotence, for nat.norm_full, real_norm_conv, auto.auto_conv and proplogic.norm_full; the sum "
+         "normaliser real.norm_add_polynomial called directly on sums of normalised monomials with one monomial cancelled.",
          "Known findings recorded: proplogic.norm_full on members containing a literal and its negation; "
          "nat.norm_full treats powers as opaque atoms; auto.auto_conv leaves powers >= 4 of sums unexpanded.", '4 C10')
 
 _bounded('C17',
          "Bounded stand-in (not a proof): CongClosure on all equation sets of <= 3 (thorough 4) constant / application "
          "equations over 4 constants in ALL merge orders with interleaved queries, and on random sets up to 8 "
-         "constants: test(a, b) = entailment by a naive fix-point closure, explanations use only merged equations; "
+         "constants, spanning trees, and applications whose two arguments lie in one class that is absorbed stepwise "
+         "(one scenario in all merge orders + random): test(a, b) = entailment by a naive fix-point closure, explanations use only merged equations; "
          "the HOL wrapper's explanations are re-checked by the kernel.",
          "No deductive part (one global representation invariant over aliased dictionaries). Explanations the HOL "
          "wrapper fails to build (exception) count as no answer.", '4 C17')
@@ -152,7 +155,8 @@ _bounded('C17',
 _bounded('C04',
          "Bounded stand-in (not a proof): every macro line of the recorded library proofs (as recorded and with 8 kinds "
          "of mutation), of the states reached by generated editing sessions, generated goals for the normalisation "
-         "macros with an own evaluation, and veriT rule instances: where both an evaluation and an expansion exist, the "
+         "macros with an own evaluation, library theorems applied with vacuous / diagonal / open / beta-redex "
+         "instantiations, and veriT rule instances: where both an evaluation and an expansion exist, the "
          "expansion is checked at check_level 0 and must prove the evaluated sequent with no extra hypotheses.",
          "No deductive part. Known findings recorded for the expansions of five veriT rules (th_resolution, "
          "eq_congruent, eq_congruent_pred, la_generic, and_simplify); see known_findings.json.", '4 C04')
